@@ -35,10 +35,18 @@ def universe():
     # points that have not been given a time yet (valid points: they are stamped on insert)
     pts.append(MPoint(None, "m0", {"k": "a"}, {"x": 2}))
     pts.append(MPoint(None, "m1", {}, {}))
+    # instants that are one microsecond apart where float seconds no longer tell them apart (year 2500, year 1600):
+    # a query evaluated on a point compares datetimes, exactly, at any date
+    for far in (T_FAR, T_FAR + 1, T_OLD, T_OLD + 1):
+        pts.append(MPoint(far, "m0", {"k": "a"}, {"x": 1}))
     # integers that floats cannot tell apart, and one beyond the float range (all valid field values)
     for big in (2**53, 2**53 + 1, float(2**53), -(2**53) - 1, 10**400):
         pts.append(MPoint(T0, "m0", {"k": "a"}, {"x": big}))
     return pts
+
+
+T_FAR = 16_725_225_600_000_000 + 123_457  # 2500-01-01T00:00:00.123457Z
+T_OLD = -11_676_096_000_000_000 + 654_321  # 1600-01-01T00:00:00.654321Z
 
 
 def atom_vocabulary():
@@ -48,6 +56,9 @@ def atom_vocabulary():
     for op in ops:
         for us, off in ((T0, 0), (T0 + 1, -480), (T0 - 1, 345)):
             A.append(("cmp", "time", (), op, ("T", us, off)))
+    for op in ops:
+        A.append(("cmp", "time", (), op, ("T", T_FAR, 0)))
+        A.append(("cmp", "time", (), op, ("T", T_OLD + 1, 330)))
     A.append(("cmp", "time", (("map", "trunc_s"),), "==", ("T", T0 - T0 % 1_000_000, 0)))
     A.append(("cmp", "time", (("map", "plus1us"),), ">", ("T", T0 + 1, 60)))
     # comparison values for which the comparison is undefined (naive datetime against aware times): false, never an error
@@ -131,7 +142,7 @@ def quick_atoms(A):
             seen.add(key)
             keep.append(a)
     # one more each for the None/missing sensitive ones
-    return keep[:52] + [a for a in A if a[0] == "cmp" and a[1] == "fields" and isinstance(a[4], int) and abs(a[4]) > 2**52][:4]
+    return keep[:52] + [a for a in A if a[0] == "cmp" and a[1] == "fields" and isinstance(a[4], int) and abs(a[4]) > 2**52][:4] + [a for a in A if a[0] == "cmp" and a[1] == "time" and isinstance(a[4], tuple) and a[4][0] == "T" and a[4][1] in (T_FAR, T_OLD + 1)][:6]
 
 
 CORE_ATOMS = [
